@@ -11,6 +11,9 @@ def cfg(nq, nt, preds, rule, assume=None, tb=None):
     return {"n_quick": nq, "n_thorough": nt, "predicates": preds, "rule": rule,
             "assumptions": COMMON_ASSUME + (assume or []), "trusted_base": tb or []}
 
+# properties whose theorems rest on the closed-form formulas of kinematics_impl.rs also re-check the source tie
+SRC_TIED = ["C01", "C02", "C03", "C04", "C05", "C06", "C15"]
+
 PROPS = {
     "C03": cfg(20000, 1000000, ["C03."],
                "robot zoo (11 presets; random signs/offsets; random geometry with b!=0, a2!=0, negative a1, zero lengths) x "
@@ -124,3 +127,9 @@ PROPS = {
                "robot's collides() and compliant(); every second problem re-planned under pools 1,3,16. The Cartesian part of each "
                "returned plan is recomputed by the model from the landing solution. non-trivial = a plan was returned"),
 }
+
+for _p, _m in [("C04", "C04b"), ("C06", "C06b"), ("C08", "C08b"), ("C15", "C15b")]:
+    PROPS[_p] = dict(PROPS[_p], extra_modules=list(PROPS[_p].get("extra_modules", [])) + [_m])
+
+for _p in SRC_TIED:
+    PROPS[_p] = dict(PROPS[_p], extra_modules=list(PROPS[_p].get("extra_modules", [])) + ["Tie"])
